@@ -26,7 +26,7 @@ WHERE IT LIVES IN THE CODE (anchors): {anchors}
 This is round {rnd}. These changes were already produced for this property in earlier rounds - yours must use DIFFERENT mechanisms and DIFFERENT triggers (do not re-create any of them, nor variations):
 {already}
 
-The verification effort you are up against compares the real code with independent reference models on many thousands of generated inputs, including boundary values, rare-but-legal inputs (non-ASCII keys, empty list items, huge coordinates, escape-looking text), large inputs beyond internal thresholds, unusual documented argument forms, state carried on one object between calls (observe-edit-observe), long-lived second handles, interleaved generators, multi-step histories with reopen, injected failures at function entries, concurrent processes (spawned and forked, also from a parent that already used the library) and statement-level schedules, process history (earlier failed imports, global switches toggled and restored by somebody else in the same process), gzip/CRLF/symlinked inputs, aliased list objects, dict subclasses, transient database locks, features with start > end, very large query answers, verbose/debug argument values, URL inputs, bare-CR line ends, sqlite pragmas, keys of other types, value and collection subclasses, handles with a write history, abandoned generators, per-process hash seeds, termination of parsing under a CPU bound. Find what it could STILL overlook. Good hunting grounds: (1) two cooperating sites that each look fine alone (a writer and a reader that disagree only for particular data); (2) behaviour that depends on an interaction of two or three options/arguments at particular values; (3) data-dependent paths inside SQL (NULLs, type affinity, collation, integer vs text comparison, LIKE/GLOB, rowid reuse); (4) Python semantics traps (mutable default arguments, shared class attributes, generators evaluated late, dict/set ordering, integer/str coercion, truthiness of 0/''/empty containers, caching keyed too coarsely); (5) unicode/normalisation/case; (6) error paths (what state is left behind when something raises half-way); (7) environment (locale, cwd, read-only files, path types such as pathlib.Path or bytes, symlinks, existing files). The change must still be a plausible slip or "optimisation/cleanup" a real contributor could make, and it must violate the STATED property (not merely some other expectation).
+The verification effort you are up against compares the real code with independent reference models on many thousands of generated inputs, including boundary values, rare-but-legal inputs (non-ASCII keys, empty list items, huge coordinates, escape-looking text), large inputs beyond internal thresholds, unusual documented argument forms, state carried on one object between calls (observe-edit-observe), long-lived second handles, interleaved generators, multi-step histories with reopen, injected failures at function entries, concurrent processes (spawned and forked, also from a parent that already used the library) and statement-level schedules, process history (earlier failed imports, global switches toggled and restored by somebody else in the same process), gzip/CRLF/symlinked inputs, aliased list objects, dict subclasses, transient database locks, features with start > end, very large query answers, verbose/debug argument values, URL inputs, bare-CR line ends, sqlite pragmas, keys of other types, value and collection subclasses, handles with a write history, abandoned generators, per-process hash seeds, termination of parsing under a CPU bound, caller-edited dialect and Feature objects, failing one-shot sources, look-ahead windows above 1000, warning filters set to error, importers with the garbage collector off, journal mode and side files of existing databases. Find what it could STILL overlook. Good hunting grounds: (1) two cooperating sites that each look fine alone (a writer and a reader that disagree only for particular data); (2) behaviour that depends on an interaction of two or three options/arguments at particular values; (3) data-dependent paths inside SQL (NULLs, type affinity, collation, integer vs text comparison, LIKE/GLOB, rowid reuse); (4) Python semantics traps (mutable default arguments, shared class attributes, generators evaluated late, dict/set ordering, integer/str coercion, truthiness of 0/''/empty containers, caching keyed too coarsely); (5) unicode/normalisation/case; (6) error paths (what state is left behind when something raises half-way); (7) environment (locale, cwd, read-only files, path types such as pathlib.Path or bytes, symlinks, existing files). The change must still be a plausible slip or "optimisation/cleanup" a real contributor could make, and it must violate the STATED property (not merely some other expectation).
 
 Your task: produce TWO different, independent changes to the gffutils source (each a small patch to files under {wt}/gffutils, not to tests) such that, for each change taken alone:
  1. the package still imports and the existing test suite still passes exactly as before: run `cd {wt} && PYTHONPATH={wt} /venv/bin/python -m pytest -q -p no:cacheprovider --timeout=900 --continue-on-collection-errors` - on the unchanged tree it reports 74 passed, 2 failed (test_biopython_integration::test_roundtrip, test_cli::test_issue_224) and 1 collection error (test_1.py); with your change the result must be the same (check that `python -c "import gffutils; print(gffutils.__file__)"` under that PYTHONPATH points into {wt});
